@@ -262,6 +262,10 @@ class Interp:
         self.paths = None
         self.aborted = []
         self.blind = []         # (callee, function, closure defs, line): closures handed to unmodelled functions
+        self.unwound = []       # event sequences of unwinding out of a user-code site through a drop guard (see explore_unwind)
+        self._unwinding = False
+        self._guards = None
+        self._reach = {}
         self.steps = 0
         self.truncated = False
 
@@ -427,8 +431,24 @@ class Interp:
         if k == "const":
             if "fn" in o:
                 return ("fn", o["fn"]["q"], o["fn"]["def"])
+            if "promoted" in o:
+                v = self.eval_promoted(st, fr, o["promoted"])
+                if v is not None:
+                    return v
             return ("const", o["ty"], o.get("int", o.get("float", o.get("v"))))
         return ("unknown", "operand")
+
+    def eval_promoted(self, st, fr, path):
+        """a promoted constant is a small straight-line body (aggregate / const fn calls): run it in a frame of its own"""
+        body = getattr(self.facts, "promoted", {}).get(path)
+        if body is None:
+            return None
+        fid = st.fresh()
+        nf = Frame(fid, body, fr, None, fr.depth + 1)
+        outs = list(self.exec_body(st, nf, 0))
+        if len(outs) != 1 or outs[0][0] is not st:
+            return None
+        return outs[0][1]
 
     def eval_rvalue(self, st, fr, r, site):
         k = r["k"]
@@ -523,6 +543,133 @@ class Interp:
         ev["depth"] = fr.depth
         ev["fid"] = fr.fid
         st.events.append(ev)
+        if ev.get("unwind") is not None and ev["ev"] in ("call", "drop", "drop_in_place") and not self._unwinding and self.guard_drops():
+            self.explore_unwind(st, fr, ev)
+
+    # ------------------------------------------------------------------ drop guards (crate types with a Drop impl that are not caches)
+    CACHE_DROPS = ("lru::raw::RawLRU",)
+
+    def guard_drops(self):
+        """{type head: Drop::drop body} for the crate's Drop impls other than the caches' own"""
+        if self._guards is None:
+            g = {}
+            for im in self.facts.doc["impls"]:
+                if im.get("trait") == "core::ops::Drop" and im.get("self_head") not in self.CACHE_DROPS:
+                    for it in im["items"]:
+                        fn = self.facts.fns.get(it)
+                        if fn and fn["name"] == "drop" and self.facts.body(it) is not None:
+                            g[im["self_head"]] = self.facts.body(it)
+            self._guards = g
+        return self._guards
+
+    def _guard_reach(self, body):
+        """cleanup blocks of a body from which the drop of a guard-typed local is reachable"""
+        key = body["path"]
+        if key not in self._reach:
+            G = self.guard_drops()
+            blocks = body["blocks"]
+            succ = {}
+            hit = set()
+            for i, blk in enumerate(blocks):
+                if not blk["c"]:
+                    continue
+                t = blk["t"]
+                if t["k"] == "drop":
+                    succ[i] = [t["t"]]
+                    if t.get("head") in G:
+                        hit.add(i)
+                elif t["k"] == "goto":
+                    succ[i] = [t["t"]]
+                elif t["k"] == "switch":
+                    succ[i] = list(t["ts"]) + [t["otherwise"]]
+                else:
+                    succ[i] = []
+            changed = True
+            while changed:
+                changed = False
+                for i, ss in succ.items():
+                    if i not in hit and any(x in hit for x in ss):
+                        hit.add(i)
+                        changed = True
+            self._reach[key] = hit
+        return self._reach[key]
+
+    def explore_unwind(self, st, fr, ev):
+        """user code at this event may panic: if a guard is dropped on the way out, run the cleanup chain on a copy of the state and
+        keep the resulting event sequence (self.unwound) so that the typestate rules can judge what the guard does"""
+        cur, bb = fr, ev.get("unwind")
+        chain = []
+        while cur is not None:
+            if isinstance(bb, int):
+                chain.append((cur, bb))
+            cur, bb = cur.parent, cur.call_unwind
+        if not any(b in self._guard_reach(f.body) for f, b in chain):
+            return
+        s2 = st.fork()
+        self._unwinding = True
+        try:
+            self.event(s2, fr, {"ev": "unwind_begin", "site": len(st.events) - 1, "ln": ev.get("ln"), "q": ev.get("q")})
+            states = [s2]
+            for f, b in chain:
+                nxt = []
+                for sx in states:
+                    nxt.extend(self._run_cleanup(sx, f, b))
+                states = nxt
+            for sx in states:
+                self.unwound.append(Path(sx.events, ("unwound", ev.get("ln")), sx.facts, sx.variants, sx))
+        finally:
+            self._unwinding = False
+
+    def _run_cleanup(self, st, fr, bb):
+        """execute the cleanup blocks of one frame from bb to its `resume`; guard drops are inlined. Returns the resulting states."""
+        G = self.guard_drops()
+        out = []
+        work = [(st, bb)]
+        seen = 0
+        while work:
+            st, bb = work.pop()
+            while True:
+                seen += 1
+                if seen > 400:
+                    raise AnalysisError("cleanup chain too long in %s" % fr.fpath)
+                blk = fr.body["blocks"][bb]
+                for s_ in blk["s"]:
+                    if s_["k"] == "assign":
+                        val = self.eval_rvalue(st, fr, s_["r"], (fr.fpath, bb, s_["ln"]))
+                        self.write(st, self.eval_place(st, fr, s_["p"]), val)
+                t = blk["t"]
+                k = t["k"]
+                if k == "goto":
+                    bb = t["t"]
+                    continue
+                if k == "switch":
+                    outs = self.do_switch(st, fr, t, bb)
+                    if not outs:
+                        break
+                    for (s3, tb) in outs[1:]:
+                        work.append((s3, tb))
+                    st, bb = outs[0]
+                    continue
+                if k == "drop":
+                    loc = self.eval_place(st, fr, t["p"])
+                    v = self.read(st, loc)
+                    self.event(st, fr, {"ev": "drop", "loc": loc, "val": v, "ty": t["ty"], "head": t["head"], "ln": t["ln"], "bb": bb,
+                                        "moved": bool(st.moved.get(loc)), "cleanup": True})
+                    body = G.get(t.get("head"))
+                    if body is not None and not st.moved.get(loc):
+                        info = {"q": "<%s as core::ops::Drop>::drop" % t["head"], "ln": t["ln"], "bb": bb, "unwind": None}
+                        res = list(self.inline_call(st, fr, body, [mkref(loc)], info))
+                        for (s3, rv) in res[1:]:
+                            work.append((s3, t["t"]))
+                        if not res:
+                            break
+                        st = res[0][0]
+                    bb = t["t"]
+                    continue
+                # resume / terminate / anything else: this frame is done
+                out.append(st)
+                break
+        return out
 
     def exec_body(self, st, fr, bb):
         """generator of (state, return value) for every path from block bb of frame fr to its return"""
@@ -574,6 +721,16 @@ class Interp:
                     v = self.read(st, loc)
                     self.event(st, fr, {"ev": "drop", "loc": loc, "val": v, "ty": t["ty"], "head": t["head"], "ln": t["ln"], "bb": bb,
                                         "unwind": t["u"], "moved": bool(st.moved.get(loc))})
+                    gbody = self.guard_drops().get(t.get("head")) if not blk["c"] else None
+                    if gbody is not None and not st.moved.get(loc):
+                        # a drop guard going out of scope on a normal path: its Drop::drop runs
+                        info = {"q": "<%s as core::ops::Drop>::drop" % t["head"], "ln": t["ln"], "bb": bb, "unwind": t["u"]}
+                        res = list(self.inline_call(st, fr, gbody, [mkref(loc)], info))
+                        for (s3, rv) in res[1:]:
+                            work.append((s3, t["t"]))
+                        if not res:
+                            break
+                        st = res[0][0]
                     bb = t["t"]
                     continue
                 if k == "assert":
@@ -892,6 +1049,9 @@ class Models:
         t["core::ptr::null"] = self.null
         t["core::cmp::Ord::max"] = None
         t["core::array::from_fn"] = self.array_from_fn
+        t["core::ops::RangeInclusive::new"] = self.range_incl_new
+        t["core::ops::RangeInclusive::contains"] = self.range_contains
+        t["core::ops::Range::contains"] = self.range_contains
         t["core::bool::<impl bool>::then"] = self.bool_then
         t["bool::then"] = self.bool_then
         for q in ("<I as core::iter::Iterator>::for_each", "core::iter::Iterator::for_each"):
@@ -1061,6 +1221,14 @@ class Models:
             for x, y in ((a, b), (b, a)):
                 if const_int(y) == 0 and isinstance(x, tuple) and x[0] == "load" and x[1][0] == "H" and len(x[1][2]) >= 2 and x[1][2][-1] == "cap":
                     return 0 if op == "Eq" else 1
+        # cap(X) == k with k below what the path already knows about len(X) (len(X) <= cap(X) is the list invariant)
+        if op in ("Eq", "Ne"):
+            for x, y in ((a, b), (b, a)):
+                ky = const_int(y)
+                if ky is not None and isinstance(x, tuple) and x[0] == "load" and x[1][0] == "H" and x[1][2][-1:] == ("cap",):
+                    Xm = ("H", x[1][1], x[1][2][:-1] + ("map",))
+                    if self.len_lower_bound(st, Xm) > ky:
+                        return 0 if op == "Eq" else 1
         # room: len(X) vs cap(X) for a resident-bound list with slack >= 1
         for x, y, o in ((a, b, op), (b, a, {"Lt": "Gt", "Gt": "Lt", "Le": "Ge", "Ge": "Le"}.get(op, op))):
             if isinstance(x, tuple) and x[0] == "len" and isinstance(y, tuple) and y[0] == "load":
@@ -1079,6 +1247,41 @@ class Models:
             if st.roomx.get(Xm) and ver == st.lenver.get(Xm, 0):
                 return {"Ge": 0, "Eq": 0, "Gt": 0, "Lt": 1, "Ne": 1, "Le": 1}.get(o)
         return None
+
+    def len_lower_bound(self, st, Xm):
+        """a lower bound of len(X) (current version) from the comparison facts of the path: values excluded by failed `len - j == c`
+        tests (the countdown of an iterator over X), and `len > c` / `len >= c` facts"""
+        ver = st.lenver.get(Xm, 0)
+        excluded = set()
+        lb = 0
+        for f in st.facts:
+            if f[0] != "cond" or not (isinstance(f[1], tuple) and f[1][0] == "bin" and f[1][1] in CMP_FLIP):
+                continue
+            tr = self._truth(f[2])
+            if tr is None:
+                continue
+            for o, x, y in ((f[1][1], f[1][2], f[1][3]), (CMP_FLIP[f[1][1]], f[1][3], f[1][2])):
+                k = const_int(y)
+                if k is None:
+                    continue
+                j = 0
+                while isinstance(x, tuple) and x[0] == "bin" and x[1] == "Sub" and const_int(x[3]) is not None:
+                    j += const_int(x[3])
+                    x = x[2]
+                if not (isinstance(x, tuple) and x[0] == "len" and x[1] == Xm and x[2] == ver):
+                    continue
+                oo = o if tr else {"Eq": "Ne", "Ne": "Eq", "Lt": "Ge", "Ge": "Lt", "Gt": "Le", "Le": "Gt"}[o]
+                if oo == "Ne":
+                    excluded.add(k + j)      # (len - j) != k; the subtraction did not wrap because the earlier tests excluded smaller values
+                elif oo == "Gt" and j == 0:
+                    lb = max(lb, k + 1)
+                elif oo == "Ge" and j == 0:
+                    lb = max(lb, k)
+                elif oo == "Eq" and j == 0:
+                    lb = max(lb, k)
+        while lb in excluded:
+            lb += 1
+        return lb
 
     @staticmethod
     def _truth(outcome):
@@ -1624,6 +1827,33 @@ class Models:
                         interp.event(s4, fr, {"ev": "drop", "loc": None, "val": x, "ty": info["arg_tys"][0], "head": info["arg_tys"][0], "ln": info["ln"],
                                               "bb": info["bb"], "unwind": info["unwind"], "moved": False, "implicit": "filter rejected"})
                         yield (s4, NONE)
+
+    def range_incl_new(self, interp, st, fr, info):
+        a, b = info["args"]
+        return [(st, ("agg", "adt", ("core::ops::RangeInclusive", None), (a, b), ("start", "end")))]
+
+    def range_contains(self, interp, st, fr, info):
+        """(a..b).contains(&x) / (a..=b).contains(&x) on numbers: `a <= x && x < b` resp. `x <= b`, as the two comparisons it is
+        (each can come out false for NaN, exactly as in the if-form)"""
+        r = interp.read(st, deref_loc(info["args"][0]))
+        x = interp.read(st, deref_loc(info["args"][1]))
+        if not (isinstance(r, tuple) and r[0] == "agg" and r[1] == "adt" and len(r[3]) >= 2 and tuple(r[4][:2]) == ("start", "end")):
+            return None
+        incl = "RangeInclusive" in info["q"]
+        lo, hi = r[3][0], r[3][1]
+        outs = []
+        c1 = ("bin", "Le", lo, x)
+        c2 = ("bin", "Le" if incl else "Lt", x, hi)
+        s_f = self.assume(interp, st, fr, c1, False, info)
+        if s_f is not None:
+            outs.append((s_f, ("const", "bool", "0")))
+        s_t = self.assume(interp, st, fr, c1, True, info)
+        if s_t is not None:
+            for truth in (True, False):
+                s2 = self.assume(interp, s_t, fr, c2, truth, info)
+                if s2 is not None:
+                    outs.append((s2, ("const", "bool", "1" if truth else "0")))
+        return outs
 
     def array_from_fn(self, interp, st, fr, info):
         """[T; N] built by calling the closure for every index: the closure body is entered once with a symbolic index and its
